@@ -313,6 +313,8 @@ def xarray_reduce(
         # skipna is not supported for all reductions
         # https://github.com/pydata/xarray/issues/8819
         kwargs = {"skipna": skipna} if skipna is not None else {}
+        if min_count is not None and func in ("sum", "prod"):
+            kwargs["min_count"] = min_count
         kwargs.update(finalize_kwargs)
         result = getattr(ds_broad, func)(dim=dim_tuple, **kwargs)
         if isinstance(obj, xr.DataArray):
